@@ -35,13 +35,14 @@ TOKEN = hashlib.sha512(b"c20 token").digest()
 KEY = hashlib.sha256(b"c20 key").digest()
 
 ENUMS = {
-    "operational_mode": {"AUTO": 1, "COOL": 2, "DRY": 3, "HEAT": 4, "FAN_ONLY": 5, "SMART_DRY": 6},
-    "fan_speed": {"AUTO": 102, "MAX": 100, "HIGH": 80, "MEDIUM": 60, "LOW": 40, "SILENT": 20},
-    "swing_mode": {"OFF": 0, "VERTICAL": 0xC, "HORIZONTAL": 0x3, "BOTH": 0xF},
-    "vertical_swing_angle": {"OFF": 0, "POS_1": 1, "POS_2": 25, "POS_3": 50, "POS_4": 75, "POS_5": 100},
-    "horizontal_swing_angle": {"OFF": 0, "POS_1": 1, "POS_2": 25, "POS_3": 50, "POS_4": 75, "POS_5": 100},
-    "rate_select": {"OFF": 100, "GEAR_50": 50, "GEAR_75": 75, "LEVEL_1": 1, "LEVEL_2": 20, "LEVEL_3": 40, "LEVEL_4": 60, "LEVEL_5": 80},
-    "aux_mode": {"OFF": 0, "AUX_HEAT": 1, "AUX_ONLY": 2},
+    # every member *name* of each enumeration, aliases included (DEFAULT is an alias in each of them)
+    "operational_mode": {"AUTO": 1, "COOL": 2, "DRY": 3, "HEAT": 4, "FAN_ONLY": 5, "SMART_DRY": 6, "DEFAULT": 5},
+    "fan_speed": {"AUTO": 102, "MAX": 100, "HIGH": 80, "MEDIUM": 60, "LOW": 40, "SILENT": 20, "DEFAULT": 102},
+    "swing_mode": {"OFF": 0, "VERTICAL": 0xC, "HORIZONTAL": 0x3, "BOTH": 0xF, "DEFAULT": 0},
+    "vertical_swing_angle": {"OFF": 0, "POS_1": 1, "POS_2": 25, "POS_3": 50, "POS_4": 75, "POS_5": 100, "DEFAULT": 0},
+    "horizontal_swing_angle": {"OFF": 0, "POS_1": 1, "POS_2": 25, "POS_3": 50, "POS_4": 75, "POS_5": 100, "DEFAULT": 0},
+    "rate_select": {"OFF": 100, "GEAR_50": 50, "GEAR_75": 75, "LEVEL_1": 1, "LEVEL_2": 20, "LEVEL_3": 40, "LEVEL_4": 60, "LEVEL_5": 80, "DEFAULT": 100},
+    "aux_mode": {"OFF": 0, "AUX_HEAT": 1, "AUX_ONLY": 2, "DEFAULT": 0},
 }
 BOOLS = ["beep", "power_state", "fahrenheit", "eco", "turbo", "freeze_protection", "sleep", "follow_me", "purifier", "ieco",
          "breezeless", "breeze_away", "breeze_mild", "display_on"]
